@@ -117,6 +117,7 @@ EvalE(x, h, row, grp, ctx) ==
     [] x.e = "exists" -> (LET v == B(AnyRel(EvalQ(x.q, ctx)).rows # <<>>) IN IF x.neg THEN 1 - v ELSE v)
     [] x.e = "scalar" -> (LET r == AnyRel(EvalQ(x.q, ctx)) IN IF r.rows = <<>> THEN NULL ELSE r.rows[1][1])
     [] x.e = "cast" -> EvalE(x.a, h, row, grp, ctx)          \* CAST(.. AS int) on integers
+    [] x.e = "var" -> ctx.vars[x.c]                          \* '$var[col]' of a map-reduce step: the partition's value
     [] x.e = "agg" -> Agg(x, h, IF grp.on THEN grp.rows ELSE <<row>>, ctx)
     [] OTHER -> ERR
 
